@@ -19,10 +19,16 @@ import (
 	"golang.org/x/tools/go/ssa/ssautil"
 )
 
-const (
-	repoDir  = "/repo"
-	buildTag = "verif_harness"
-)
+const buildTag = "verif_harness"
+
+// repoDir is /repo; SYMGO_REPO overrides it only for developing harnesses against a scratch
+// worktree (registered commands never set it, and evidence records the directory used).
+var repoDir = func() string {
+	if r := os.Getenv("SYMGO_REPO"); r != "" {
+		return r
+	}
+	return "/repo"
+}()
 
 // verifDir is /verif unless SYMGO_HOME points at a snapshot of it (background runs).
 var verifDir = func() string {
@@ -636,6 +642,7 @@ func (m *machine) runPath(it pendingItem) {
 	m.stack = m.stack[:0]
 	m.newPend = nil
 	m.reached, m.observed, m.observeT, m.observeS = nil, nil, nil, nil
+	m.openFiles = nil
 	m.dom, m.entangled, m.allEntangled = map[string]*dom8{}, map[string]bool{}, false
 	m.model, m.modelOK = nil, false
 	if it.model != nil {
